@@ -381,11 +381,15 @@ func runC14R2(c *eng.Ctx, r *eng.RuleCtx) {
 	g := p.GraphOfLit(lit)
 	failAssumed := fieldEqConst(info, status, "Fail", true)
 	nresp := 0
-	for _, n := range g.Nodes {
-		ret, ok := n.Node.(*ast.ReturnStmt)
-		if !ok || len(ret.Results) != 2 || !eng.IsNil(info, ret.Results[1]) {
+	for _, site := range resultSites(g, info, lit.Lit.Body) {
+		n := site.Node
+		if len(site.Vals) != 2 || !eng.IsNil(info, site.Vals[1]) {
 			continue
 		}
+		ret := struct {
+			Results []ast.Expr
+			Pos     func() token.Pos
+		}{site.Vals, n.Node.Pos}
 		nresp++
 		construct := fmt.Sprintf("%s$handler response-return#%d", f.Key, nresp)
 		// (i) a literal deny
